@@ -256,10 +256,10 @@ Proof.
     inversion X; subst; eexists; repeat split; eauto.
 Qed.
 Lemma panic_render a e p : fst (process a e) = Panic p ->
-  (exists sz, e_tree e = Some sz /\ render_svg a e sz = RPanic p) \/ (p = PStdoutWrite /\ a_stdout a = true /\ e_write_ok e = false).
+  exists sz, e_tree e = Some sz /\ render_svg a e sz = RPanic p.
 Proof.
   unfold process, c20_process_steps, init_state. crush_steps; simpl; intros X; try discriminate;
-    inversion X; subst; try (left; eexists; split; eauto; fail); right; auto.
+    inversion X; subst; eexists; split; eauto.
 Qed.
 
 (* which conditions give exit status 1 *)
@@ -323,14 +323,12 @@ Qed.
 
 Theorem trim_no_panic fit doc canvas c :
   pixmap_new_ok canvas = true -> is_h canvas <= I32_MAX ->
-  (let '(x, y, w, h) := c in let t := fit_to_transform fit doc in
-   q_to_int_rect (x * t_sx t)%Q (y * t_sy t)%Q (w * t_sx t)%Q (h * t_sy t)%Q <> None) ->
   exists s, trim fit doc canvas c = ROk s.
 Proof.
-  intros P Hh. destruct c as [[[x y] w] h]. intro NN. unfold trim. cbv zeta in *.
+  intros P Hh. destruct c as [[[x y] w] h]. unfold trim. cbv zeta.
   unfold pixmap_new_ok in P. b2p.
   rewrite (limit_rect_ok (is_w canvas) (is_h canvas)) by lia.
-  destruct (q_to_int_rect _ _ _ _) as [ci|] eqn:QI; [|exfalso; apply NN; reflexivity].
+  destruct (q_to_int_rect _ _ _ _) as [ci|]; [|eexists; reflexivity].
   destruct (cli_fit_to_rect ci _); eexists; reflexivity.
 Qed.
 
@@ -349,7 +347,7 @@ Theorem trim_within_canvas fit doc canvas c s :
 Proof.
   intros P Hh. destruct c as [[[x y] w] h]. unfold trim. cbv zeta. unfold pixmap_new_ok in P. b2p.
   rewrite (limit_rect_ok (is_w canvas) (is_h canvas)) by lia.
-  destruct (q_to_int_rect _ _ _ _) as [ci|]; [|discriminate].
+  destruct (q_to_int_rect _ _ _ _) as [ci|]; [|intro X; inversion X; subst; lia].
   destruct (cli_fit_to_rect ci _) as [r|] eqn:F.
   - intro X. inversion X; subst; simpl. unfold cli_fit_to_rect in F. apply from_ltrb_some in F.
     unfold i_right, i_bottom in F. simpl in F.
@@ -367,60 +365,75 @@ Lemma trim_f20_witness :
   = ROk {| is_w := 100; is_h := 100 |}.
 Proof. vm_compute. reflexivity. Qed.
 
-(* ---- panics: the faithful model has them; each one lies in a known class ------------------------------ *)
-Lemma render_panic_classes a e sz p : e_tree e = Some sz -> render_svg a e sz = RPanic p ->
-  k_target_overflow a e || k_content_overflow a e || k_offset_overflow a e || k_canvas_too_tall a e = true.
+(* ---- no panic: after 925640f / 57970e3 / 71df1bd / dd6e054 the only unwrap the arguments can reach is the canvas
+   rectangle of trim_pixmap, and only for a canvas taller than i32::MAX rows (resource assumption) ------------------ *)
+Lemma render_panic_only_tall a e sz p : e_tree e = Some sz -> render_svg a e sz = RPanic p ->
+  canvas_height_fits_i32 a e = false.
 Proof.
-  intros T R. unfold render_svg in R.
-  unfold k_target_overflow, k_content_overflow, k_offset_overflow, k_canvas_too_tall. rewrite T.
+  intros T R. unfold render_svg in R. unfold canvas_height_fits_i32. rewrite T.
   destruct (a_export_id a) eqn:EI.
   - destruct (e_node e) as [| |x y w h]; try discriminate.
-    destruct (fit_to_size (the_fit a) (to_int_size w h)) as [size|] eqn:F1; [|discriminate].
-    simpl. destruct (negb (pixmap_new_ok size)) eqn:P1; simpl; [reflexivity|].
-    destruct (a_area_page a) eqn:AP; [|discriminate].
-    destruct (fit_to_size (the_fit a) (to_int_size (fst sz) (snd sz))) as [psize|] eqn:F2; [|discriminate].
-    simpl. destruct (negb (pixmap_new_ok psize)) eqn:P2; simpl; [reflexivity|].
-    destruct (irect_from_xywh _ _ _ _); [discriminate|]. simpl. rewrite !orb_true_r. reflexivity.
+    destruct (fit_to_size (the_fit a) (to_int_size w h)) as [size|]; [|discriminate].
+    destruct (negb (pixmap_new_ok size)); [discriminate|].
+    destruct (a_area_page a); [|discriminate].
+    destruct (fit_to_size (the_fit a) (to_int_size (fst sz) (snd sz))) as [psize|]; [|discriminate].
+    destruct (negb (pixmap_new_ok psize)); discriminate.
   - destruct (fit_to_size (the_fit a) (to_int_size (fst sz) (snd sz))) as [size|] eqn:F1; [|discriminate].
-    simpl. destruct (negb (pixmap_new_ok size)) eqn:P1; simpl; [reflexivity|].
-    destruct (a_area_drawing a) eqn:AD; [|discriminate]. simpl.
+    destruct (negb (pixmap_new_ok size)) eqn:P1; [discriminate|].
+    destruct (a_area_drawing a); [|discriminate].
     unfold trim in R. destruct (e_content e) as [[[x y] w] h].
-    destruct (is_h size <=? I32_MAX) eqn:HH; simpl; [|rewrite !orb_true_r; reflexivity].
+    destruct (is_h size <=? I32_MAX) eqn:HH; [|reflexivity]. exfalso.
     assert (Wok : 0 < is_w size <= MAX_PIXMAP_W /\ 0 < is_h size <= I32_MAX).
     { unfold pixmap_new_ok in P1. apply negb_false_iff in P1. apply andb_true_iff in P1. destruct P1 as [P1 P1c].
       apply andb_true_iff in P1. destruct P1 as [P1a P1b]. apply Z.ltb_lt in P1a, P1b. apply Z.leb_le in P1c, HH. lia. }
     cbv zeta in R. rewrite (limit_rect_ok (is_w size) (is_h size)) in R by lia.
-    destruct (q_to_int_rect _ _ _ _); [|reflexivity].
+    destruct (q_to_int_rect _ _ _ _); [|discriminate].
     destruct (cli_fit_to_rect _ _); discriminate.
 Qed.
 
-Theorem no_panic_guarded a e : known_panic_class a e = false -> forall p, fst (process a e) <> Panic p.
+Theorem no_panic a e : canvas_height_fits_i32 a e = true -> forall p, fst (process a e) <> Panic p.
 Proof.
-  intros K p X. apply panic_render in X. unfold known_panic_class in K. b2p.
-  destruct K as [[[[K1 K2] K3] K5] K6].
-  destruct X as [[sz [T R]]|[_ [S W]]].
-  - pose proof (render_panic_classes a e sz p T R) as C. rewrite K1, K2, K3, K6 in C. discriminate.
-  - unfold k_stdout_fails in K5. rewrite S, W in K5. discriminate.
+  intros K p X. apply panic_render in X. destruct X as [sz [T R]].
+  rewrite (render_panic_only_tall a e sz p T R) in K. discriminate.
 Qed.
+(* without --export-area-drawing there is no panic at all *)
+Theorem no_panic_without_trim a e : a_area_drawing a = false -> forall p, fst (process a e) <> Panic p.
+Proof.
+  intros AD p X. apply panic_render in X. destruct X as [sz [T R]]. unfold render_svg in R.
+  destruct (a_export_id a).
+  - destruct (e_node e) as [| |x y w h]; try discriminate.
+    destruct (fit_to_size (the_fit a) (to_int_size w h)) as [size|]; [|discriminate].
+    destruct (negb (pixmap_new_ok size)); [discriminate|].
+    destruct (a_area_page a); [|discriminate].
+    destruct (fit_to_size (the_fit a) (to_int_size (fst sz) (snd sz))) as [psize|]; [|discriminate].
+    destruct (negb (pixmap_new_ok psize)); discriminate.
+  - destruct (fit_to_size (the_fit a) (to_int_size (fst sz) (snd sz))) as [size|]; [|discriminate].
+    destruct (negb (pixmap_new_ok size)); [discriminate|]. rewrite AD in R. discriminate.
+Qed.
+
+Lemma unwrap_ledger : unwrap_ledger_ok = true.
+Proof. vm_compute. reflexivity. Qed.
 
 Definition doc_20x10 : env := mk_env true true (Some (20 # 1, 10 # 1)%Q) 1 (NodeBox (2 # 1) (2 # 1) (5 # 1) (5 # 1)) (2 # 1, 2 # 1, 5 # 1, 5 # 1)%Q.
 Definition args_w (w : Z) : cli_args := mk_args (Some w) None None None true true false false false false false.
-(* resvg -w 1000000000 in.svg out.png on a 20x10 document: Pixmap::new(..).unwrap() *)
-Theorem no_panic_refuted_target : args_valid (args_w 1000000000) = true /\
-  process (args_w 1000000000) doc_20x10 = (Panic PPixmapNew, false) /\ k_target_overflow (args_w 1000000000) doc_20x10 = true.
+(* regression witnesses of the four fixed classes (corpus/witness/F31.svg, F32.svg) *)
+Lemma fixed_target_overflow : args_valid (args_w 1000000000) = true /\
+  process (args_w 1000000000) doc_20x10 = (Exit1 ETargetTooLarge, false).
 Proof. vm_compute. auto. Qed.
-(* --export-area-drawing with content at x = 2e9, width 3e8: Rect::to_int_rect().unwrap() *)
 Definition env_far : env := mk_env true true (Some (20 # 1, 10 # 1)%Q) 1 (NodeBox (2000000000 # 1) (2 # 1) (300000000 # 1) (5 # 1))
                                    (2000000000 # 1, 2 # 1, 300000000 # 1, 5 # 1)%Q.
 Definition args_adraw : cli_args := mk_args None None None None true true false false false false true.
-Theorem no_panic_refuted_area_drawing : args_valid args_adraw = true /\
-  process args_adraw env_far = (Panic PToIntRect, false) /\ k_content_overflow args_adraw env_far = true.
-Proof. vm_compute. auto. Qed.
-(* --export-id r --export-area-page with the same node: draw_pixmap offset box overflows *)
+Lemma fixed_area_drawing : process args_adraw env_far = (Exit0 (Some {| is_w := 20; is_h := 10 |}), true).
+Proof. vm_compute. reflexivity. Qed.
 Definition args_apage : cli_args := mk_args None None None None true true false false true true false.
-Theorem no_panic_refuted_area_page : args_valid args_apage = true /\
-  process args_apage env_far = (Panic PDrawOffset, false) /\ k_offset_overflow args_apage env_far = true.
-Proof. vm_compute. auto. Qed.
+Lemma fixed_area_page : process args_apage env_far = (Exit0 (Some {| is_w := 20; is_h := 10 |}), true).
+Proof. vm_compute. reflexivity. Qed.
+Lemma fixed_stdout_write :
+  process (mk_args None None None None true true true false false false false)
+          {| e_read_ok := true; e_gunzip_ok := true; e_utf8_ok := true; e_xml_ok := true; e_tree := Some (20 # 1, 10 # 1)%Q; e_ids := 1%nat;
+             e_node := NodeMissing; e_content := (2 # 1, 2 # 1, 5 # 1, 5 # 1)%Q; e_encode_ok := true; e_write_ok := false |}
+  = (Exit1 EWrite, false).
+Proof. vm_compute. reflexivity. Qed.
 
 (* non-vacuity: ordinary runs *)
 Lemma run_w7 : process (args_w 7) doc_20x10 = (Exit0 (Some {| is_w := 7; is_h := 4 |}), true).
